@@ -1,16 +1,16 @@
 SPECIFICATION Spec
 CONSTANTS
-  MaxPool = 3
-  Strategies = {"rr"}
+  MaxPool = 4
+  Strategies = {"rr", "fanout", "random"}
   Keys = {"-"}
-  Pools = {1, 2, 3}
-  Presets = {0, 1, 2, 3, 4, 5, 6, 7}
-  Hi = 2
+  Pools = {1, 2, 3, 4}
+  Presets = {0, 1, 2, 3, 4, 5, 6, 7, 8, 9, 10, 11, 12, 13, 14, 15}
+  Hi = 4
   Lo = 4
   VN = 1
   H = 1
   VTabs <- NoVTab
   KTabs <- NoKTab
-  Defects = {"WrapIndex"}
+  Defects = {}
 INVARIANTS TypeOK AliveInMap
 PROPERTIES NoDrop RoundRobin FanOut Sticky
